@@ -32,6 +32,9 @@ THEOREMS = [
     'AbacusVerif.Inbounds.concat_inbounds',
     'AbacusVerif.Inbounds.pack9_inbounds',
     'AbacusVerif.Inbounds.partition_inbounds',
+    'AbacusVerif.Inbounds.zipper_inbounds',
+    'AbacusVerif.Inbounds.kmu_search_inbounds',
+    'AbacusVerif.Inbounds.kppi_search_inbounds',
 ]
 LEAN_MODULES = ['AbacusVerif.Props.C11', 'AbacusVerif.Props.C11All']
 DRIVER = 'drv_c11'
@@ -342,14 +345,21 @@ def k_hod(R, rng):
         a = np.sort(rng.integers(0, 20, n)).astype(np.int64)
         b = rng.integers(-2, 25, 7).astype(np.int64)
         R.run('abacus_hod._searchsorted_parallel', dict(n=n), lambda: _searchsorted_parallel(a, b))
-    try:
-        import hodgen10
-    except Exception:   # the HOD table generator belongs to C10; until it exists only the helpers above run
-        R.ctx.count('hod:gen_cent/gen_sats skipped (hodgen10 not available)')
-        return
-    if hasattr(hodgen10, 'c11_cases'):
-        for name, case, fn in hodgen10.c11_cases(rng):
-            R.run(name, case, fn)
+    # the two-pass kernels gen_cent / gen_sats through gen_gal_cat: empty tables, single rows, more threads than
+    # rows, sizes not divisible by the thread count (an index fault inside a parallel kernel surfaces as SystemError)
+    import hodgen10
+    subsets = [('LRG', 'ELG', 'QSO'), ('ELG',), ('LRG', 'QSO')]
+    k = 0
+    for H, P in ((0, 0), (1, 0), (1, 1), (2, 5), (5, 3), (15, 15), (17, 49)):
+        for n in (1, 2, 7, 11, 16):
+            subset = subsets[k % len(subsets)]
+            k += 1
+            halo, part = hodgen10.make_tables(rng, H, P)
+            tracers = hodgen10.make_tracers(subset, rng)
+            params = hodgen10.make_params()
+            R.run('GRAND_HOD.gen_gal_cat(gen_cent,gen_sats)', dict(H=H, P=P, Nthread=n, subset=list(subset)),
+                  lambda: G.gen_gal_cat(halo, part, tracers, params, Nthread=n, enable_ranks=bool(k % 2), rsd=bool(k % 3)),
+                  nontrivial=H + P > 0)
 
 
 def run(ctx):
